@@ -205,6 +205,7 @@ def run_case(idx, rng, tier, res):
         o = dict((k, rng.random() < 0.75) for k in ('originalMatching', 'uppercaseMatching',
                                                      'lowcaseMatching', 'fuzzyMatching'))
         kind = 'zip' if idx % 2 else 'dir'
+        size_limit = rng.choice([None, None, None, 40])
         exts = list(EXTS)
         index = {}
         recursive = True
@@ -221,6 +222,8 @@ def run_case(idx, rng, tier, res):
                         f.write('%s %s\n' % (k, v))
             recursive = rng.random() < 0.8
             reader = FileReader(root, recursive=recursive).setOptions(**o)
+            if size_limit:
+                reader.setOptions(maxMibSize=size_limit)
             universe = [(nm, data, mt, len(d)) for d, nm, data, mt in files if recursive or not d]
             dirnames = set(d[-1] for d in dirs if d)
         else:
@@ -233,6 +236,8 @@ def run_case(idx, rng, tier, res):
             with open(zp, 'wb') as f:
                 f.write(blob)
             reader = ZipReader(zp).setOptions(**o)
+            if size_limit:
+                reader.setOptions(maxMibSize=size_limit)
             universe = [(nm, data, time.mktime(datetime.datetime(*d_).timetuple()), nest)
                         for nm, data, d_, nest in listing]
             dirnames = set()
@@ -245,8 +250,8 @@ def run_case(idx, rng, tier, res):
                 got = 'hit'
             except error.PySmiReaderFileNotFoundError:
                 got = 'notfound'
-            except error.PySmiReaderError as exc:
-                got = 'readererror'
+            except (error.PySmiReaderError, IOError) as exc:
+                got = 'readererror'      # incl. "MIB too large" (ZipReader lets the IOError through)
             except Exception as exc:
                 res.violation('reader_exception', '%s reader raised %s: %s for %r (options %r)' % (
                     kind, type(exc).__name__, exc, name, o), replay={'name': name, 'options': o},
@@ -288,6 +293,8 @@ def run_case(idx, rng, tier, res):
             elif got == 'notfound':
                 res.count('notfound_checked')
                 present = sorted(set(u[0] for u in universe if u[0] in promise))
+                if size_limit and any(len(u[1]) >= size_limit for u in universe if u[0] in allow):
+                    present = []        # an over-long variant legitimately ends the lookup with an error
                 if present:
                     res.violation('variant_not_found', 'asked %r (options %r): not found although %s exist(s) '
                                   '(%r)' % (name, o, present, cell), replay=cell, kind=kind,
